@@ -157,7 +157,7 @@ def generic_cases(ctx, rng, n):
             ctx.violation('generic merge of changes at separate list positions failed', {'kind': 'generic', 'b': bl, 'l': ll, 'r': rl, 'expected': el})
 
 
-def run(ctx):
+def _run_property(ctx):
     ctx.cov['rule'] = ('base notebooks with 2-6 cells, every cell owned by local, remote or nobody, per-cell action on the owning side (edit source / outputs / '
                        'metadata / re-run, delete, leave), insertions only in gaps not adjacent to a cell the other side touched; expected result built without '
                        'any diff; plus generic dicts (different keys) and lists (separate positions); non-trivial = every case; distinct by (partition, actions, strategy)')
@@ -171,7 +171,24 @@ def run(ctx):
     generic_cases(ctx, rng, 60 if ctx.tier == 'quick' else 1500)
 
 
+MERGE_MODEL_THEOREMS = []
+
+
+def run(ctx):
+    from checks import mergemodel
+    _run_property(ctx)
+    mergemodel.tie(ctx, (40, 40, 400, 500), MERGE_MODEL_THEOREMS)
+
+
 def replay(path):
+    _d = json.load(open(path))['data']
+    if _d.get('kind') == 'correspondence' and _d.get('stream') == 'merge-model':
+        from checks import mergemodel
+        return mergemodel.replay_case(_d)
+    return _replay_property(path)
+
+
+def _replay_property(path):
     data = json.load(open(path))['data']
     ctx = vlib.Ctx('C06', 'quick', 0)
     if data.get('kind') in ('owned', 'raises'):
